@@ -475,6 +475,31 @@ unsafe impl Kernel<f32, f32, f32> for Avx512Kernel {
 // K tile size for int8 kernels.
 const K_TILE: usize = 4;
 
+/// Return the zero points for the rows and columns of an output tile.
+///
+/// Zero points passed with the GEMM call take precedence over those stored in
+/// the packed panels. The two agree when the panels were packed as part of the
+/// same call, but prepacked inputs are packed without zero points.
+#[inline(always)]
+fn tile_zero_points<const MR: usize, const NR: usize>(
+    mut a_zero_points: [i32; MR],
+    mut b_zero_points: [i32; NR],
+    a_quant: Option<QuantParams<u8>>,
+    b_quant: Option<QuantParams<i8>>,
+) -> ([i32; MR], [i32; NR]) {
+    if let Some(a_quant) = a_quant {
+        for (dst, src) in a_zero_points.iter_mut().zip(a_quant.zero_point) {
+            *dst = *src as i32;
+        }
+    }
+    if let Some(b_quant) = b_quant {
+        for (dst, src) in b_zero_points.iter_mut().zip(b_quant.zero_point) {
+            *dst = *src as i32;
+        }
+    }
+    (a_zero_points, b_zero_points)
+}
+
 pub struct Avx2Int8Kernel {
     isa: Avx2Isa,
 }
@@ -609,8 +634,8 @@ unsafe impl Kernel<u8, i8, i32> for Avx2Int8Kernel {
         depth: usize,
         _alpha: f32,
         beta: i32,
-        _a_quant: Option<QuantParams<u8>>,
-        _b_quant: Option<QuantParams<i8>>,
+        a_quant: Option<QuantParams<u8>>,
+        b_quant: Option<QuantParams<i8>>,
     ) {
         let a_data = match a {
             Lhs::Packed(data) => data,
@@ -619,6 +644,8 @@ unsafe impl Kernel<u8, i8, i32> for Avx2Int8Kernel {
 
         let (a_data, a_meta) = packing::int8::extract_packed_a::<{ Self::MR }>(a_data);
         let (b, b_meta) = packing::int8::extract_packed_b::<{ Self::NR }>(b);
+        let (a_zero_points, b_zero_points) =
+            tile_zero_points(a_meta.zero_points, b_meta.zero_points, a_quant, b_quant);
 
         const NR_REGS: usize = Avx2Int8Kernel::NR / AVX2_X32_LANES;
         simd_int8_gemm::<_, _, { Self::MR }, { Self::NR }, NR_REGS>(
@@ -631,8 +658,8 @@ unsafe impl Kernel<u8, i8, i32> for Avx2Int8Kernel {
             used_cols,
             depth,
             beta != 0, // accumulate
-            a_meta.zero_points,
-            b_meta.zero_points,
+            a_zero_points,
+            b_zero_points,
             &a_meta.row_sums,
             &b_meta.col_sums,
             self.isa,
@@ -835,8 +862,8 @@ unsafe impl Kernel<u8, i8, i32> for Avx512Int8Kernel {
         depth: usize,
         _alpha: f32,
         beta: i32,
-        _a_quant: Option<QuantParams<u8>>,
-        _b_quant: Option<QuantParams<i8>>,
+        a_quant: Option<QuantParams<u8>>,
+        b_quant: Option<QuantParams<i8>>,
     ) {
         let a_data = match a {
             Lhs::Packed(data) => data,
@@ -845,6 +872,8 @@ unsafe impl Kernel<u8, i8, i32> for Avx512Int8Kernel {
 
         let (a_data, a_meta) = packing::int8::extract_packed_a::<{ Self::MR }>(a_data);
         let (b, b_meta) = packing::int8::extract_packed_b::<{ Self::NR }>(b);
+        let (a_zero_points, b_zero_points) =
+            tile_zero_points(a_meta.zero_points, b_meta.zero_points, a_quant, b_quant);
 
         const NR_REGS: usize = Avx512Int8Kernel::NR / AVX512_X32_LANES;
         if let Some(vnni_dot) = self.vnni_dot {
@@ -858,8 +887,8 @@ unsafe impl Kernel<u8, i8, i32> for Avx512Int8Kernel {
                 used_cols,
                 depth,
                 beta != 0, // accumulate
-                a_meta.zero_points,
-                b_meta.zero_points,
+                a_zero_points,
+                b_zero_points,
                 &a_meta.row_sums,
                 &b_meta.col_sums,
                 vnni_dot,
@@ -875,8 +904,8 @@ unsafe impl Kernel<u8, i8, i32> for Avx512Int8Kernel {
                 used_cols,
                 depth,
                 beta != 0, // accumulate
-                a_meta.zero_points,
-                b_meta.zero_points,
+                a_zero_points,
+                b_zero_points,
                 &a_meta.row_sums,
                 &b_meta.col_sums,
                 self.isa, // Use non-VNNI dot product
